@@ -42,10 +42,11 @@ def _select(fields, named, kind):
         if named:
             return f["name"] in ("source", "r#source") if kind == "source" else (f["name"] == "backtrace" or isbt)
         if kind == "source":
-            # error.md: "exactly one field that is not used as the backtrace": the sole field, unless IT is the backtrace (marked so, or
-            # of a type named Backtrace and not marked `not(backtrace)`)
+            # error.md: "exactly one field that is not used as the backtrace": the sole field, unless it is taken for the backtrace by its
+            # type's name (and not marked `not(backtrace)`)
             bta = ATTRS[f["attr"]]["bt"]
-            return n == 1 and not (bta is True or (bta is None and isbt))
+            # (a sole field marked `#[error(backtrace)]` is the source AND hands on its backtrace: the repository's own nightly tests)
+            return n == 1 and not (bta is None and isbt)
         return isbt
 
     cands = [i for i in en if ATTRS[fields[i]["attr"]][key] is None and default(fields[i])]
